@@ -159,9 +159,16 @@ func verifC09Backoff(events int) {
 // VerifC09Responses: a counted response weighs as many events as it has size
 // estimates, and every one of them counts towards the limit and towards back-off.
 //
-//verif:harness name=H09c-responses tier=quick,thorough bounds="one client; count 1..2, back-off count 1..3; sequence of 3 steps from {query, counted response of 2 or 3 size estimates}; interval and clock readings symbolic" reach=done,dropped,passed,response-counted maxpaths=100000
+//verif:harness name=H09c-responses tier=quick bounds="one client; count 1..2, back-off count 1..3; sequence of 3 steps from {query, counted response of 2 or 3 size estimates}; interval and clock readings symbolic" reach=done,dropped,passed,response-counted maxpaths=100000
 //verif:assume request/hit counters do not expire within the explored horizon; clock readings positive, non-decreasing, below 2^62
-func VerifC09Responses() {
+func VerifC09Responses() { verifC09Responses(3) }
+
+// VerifC09Responses5 is the thorough variant.
+//
+//verif:harness name=H09c-responses5 tier=thorough bounds="as H09c-responses with 5 steps" reach=done,dropped,passed,response-counted maxpaths=5000000
+func VerifC09Responses5() { verifC09Responses(5) }
+
+func verifC09Responses(steps int) {
 	ip := netip.MustParseAddr("192.0.2.77")
 	num := uint(1 + verifChoice(2))
 	backoffCount := uint(1 + verifChoice(3))
@@ -183,7 +190,7 @@ func VerifC09Responses() {
 	ctx := context.Background()
 	var last int64
 	req := &dns.Msg{Question: []dns.Question{{Name: "example.org.", Qtype: dns.TypeA, Qclass: dns.ClassINET}}}
-	for j := 0; j < 3; j++ {
+	for j := 0; j < steps; j++ {
 		now := nondetI64()
 		verifAssume(now > 0)
 		verifAssume(now < 1<<62)
